@@ -218,3 +218,13 @@ pub fn serde_check() -> (usize, Vec<String>) {
     }
     (c.cases, c.bad)
 }
+
+/// C16 witness: a struct is read from an alist with an unknown field that holds an n-element list (skipped via IgnoredAny)
+pub fn ignored_long(n: usize) -> usize {
+    let payload = Value::list((0..n).map(|_| Value::from(1)).collect::<Vec<Value>>());
+    let v = Value::list(vec![Value::cons(Value::symbol("id"), Value::from(7)), Value::cons(Value::symbol("payload"), payload),
+                             Value::cons(Value::symbol("tag"), Value::string("x"))]);
+    let h: Header = from_value(&v).unwrap();
+    std::mem::forget(v);
+    h.id as usize
+}
